@@ -15,10 +15,13 @@ package bbsblssignatureproof2020
 // It uses BLS12-381 pairing-friendly curve (https://tools.ietf.org/html/draft-irtf-cfrg-pairing-friendly-curves-03).
 
 import (
+	"fmt"
 	"sort"
 	"strings"
 
+	"github.com/hyperledger/aries-framework-go/component/kmscrypto/crypto/primitive/bbs12381g2pub"
 	"github.com/hyperledger/aries-framework-go/component/models/ld/processor"
+	"github.com/hyperledger/aries-framework-go/component/models/signature/api"
 	"github.com/hyperledger/aries-framework-go/component/models/signature/suite"
 )
 
@@ -101,6 +104,36 @@ func restoreBlankNodeOrder(canonical []byte) []byte {
 	})
 
 	return []byte(strings.Join(rows, "\n"))
+}
+
+// Verify verifies the derived proof over the statements of the document (the proof options followed by the document,
+// one N-Quad per line). The document must consist of exactly the statements the proof reveals: the BBS+ proof
+// verification takes the first revealed-count messages and ignores the rest, so statements added to a derived document
+// after the revealed ones would otherwise be accepted although no proof covers them.
+func (s *Suite) Verify(pubKeyValue *api.PublicKey, doc, signature []byte) error {
+	err := s.SignatureSuite.Verify(pubKeyValue, doc, signature)
+	if err != nil {
+		return err
+	}
+
+	revealed, err := bbs12381g2pub.RevealedMessagesCount(signature)
+	if err != nil {
+		return err
+	}
+
+	statements := 0
+
+	for _, row := range strings.Split(string(doc), "\n") {
+		if strings.TrimSpace(row) != "" {
+			statements++
+		}
+	}
+
+	if statements != revealed {
+		return fmt.Errorf("the document has %d statements but the proof reveals %d", statements, revealed)
+	}
+
+	return nil
 }
 
 // GetDigest returns the doc itself as we would process N-Quads statements as messages to be signed/verified.
